@@ -201,8 +201,11 @@ func (r *RootAssertionNode) funcArgsFromCallExpr(expr *ast.CallExpr) []ast.Expr 
 			return expr.Args[1:]
 		}
 	case *ast.FuncLit:
-		args := expr.Args
 		if info, ok := r.functionContext.funcLitMap[fun]; ok {
+			// expr.Args belongs to the syntax tree shared with other goroutines and analyzers: appending to it
+			// directly would write into the spare capacity of its backing array, so we extend a copy.
+			args := make([]ast.Expr, len(expr.Args), len(expr.Args)+len(info.ClosureVars))
+			copy(args, expr.Args)
 			for _, closure := range info.ClosureVars {
 				args = append(args, closure.Ident)
 			}
